@@ -231,6 +231,16 @@ def h_scenario3d(env, kind="tail_cut"):
              ((-3.0, -33.0, 0.0), (-3.0, -60.0, 0.0)),                        # r2: follows r (link 3)
              ((E[0], 0.0, gx), (0.0, 0.0, 80.0))]                             # x1: entry gx (< gr) from b1's exit -> tail (r, r2) cut
         env.assume(env.ge(dmax, 3.5))
+    elif kind == "ring":
+        # P -> X is traced; T cuts P off by prefixing X; the later chain S1 -> S2 starts in reach of P's exit and ends in reach
+        # of P's entry: connecting BOTH of its ends to the (one-particle) chain P would close a ring - chains must stay simple
+        a, b, c = g[0], g[1], g[2]
+        env.assume(env.and_(env.lt(b, a), env.lt(a, c), env.le(c, dmax), env.ge(dmax, 7.5), env.ge(a, 2)))
+        P = [((0.0, 0.0, 0.0), (10.0, 0.0, 0.0)),                              # P
+             ((10.0 + a, 0.0, 0.0), (16.0, 50.0, 0.0)),                         # X : entry a beyond P's exit
+             ((100.0, 100.0, 100.0), (10.0 + a, b, 0.0)),                       # T : ends b (< a) from X's entry
+             ((10.0, -c, 0.0), (5.0, -14.0, 0.0)),                              # S1: entry c (> a) from P's exit
+             ((0.0, -14.0, 0.0), (0.0, -7.0, 0.0))]                             # S2: 5 behind S1's exit; its exit 7 from P's entry
     else:
         g1, g2, g3, g4, g5 = g
         env.assume(env.and_(env.lt(g3, g1), env.lt(g1, g4), env.le(g4, dmax), env.lt(g5, g2), env.le(g2, dmax)))
@@ -243,11 +253,15 @@ def h_scenario3d(env, kind="tail_cut"):
              ((E1[0], -g4, 0.0), (X2[0] + g2, g5, 0.0)),                      # d1: after b1 and before b3 (both sides), cutting (c1, b2) off
              ((0.0, 0.0, 50.0), (0.0, 0.0, 60.0))]                            # h : isolated, opens the next chain
     n = len(P)
-    ent = [{"tomo_id": 1.0, "subtomo_id": float(i + 1), "x": P[i][0][0], "y": P[i][0][1], "z": P[i][0][2]} for i in range(n)]
-    ext = [{"tomo_id": 1.0, "subtomo_id": float(i + 1), "x": P[i][1][0], "y": P[i][1][1], "z": P[i][1][2]} for i in range(n)]
+    # the sites are COMPLETE positions (x + shift): the tables carry non-zero shifts, different on every axis
+    sh_e, sh_x = (0.5, -0.75, 0.25), (-0.25, 0.5, 1.0)
+    ent = [{"tomo_id": 1.0, "subtomo_id": float(i + 1), "x": P[i][0][0] - sh_e[0], "y": P[i][0][1] - sh_e[1], "z": P[i][0][2] - sh_e[2],
+            "shift_x": sh_e[0], "shift_y": sh_e[1], "shift_z": sh_e[2]} for i in range(n)]
+    ext = [{"tomo_id": 1.0, "subtomo_id": float(i + 1), "x": P[i][1][0] - sh_x[0], "y": P[i][1][1] - sh_x[1], "z": P[i][1][2] - sh_x[2],
+            "shift_x": sh_x[0], "shift_y": sh_x[1], "shift_z": sh_x[2]} for i in range(n)]
 
     def dsq(a, b):
-        return sum((ext[a][c] - ent[b][c]) * (ext[a][c] - ent[b][c]) for c in "xyz")
+        return sum((P[a][1][k] - P[b][0][k]) * (P[a][1][k] - P[b][0][k]) for k in range(3))
     out = rb.trace_chains(mk_motl(env, cm, ent), mk_motl(env, cm, ext), dmax, 0.0)
     _check_partition(env, out.df, ent, ext, dmax, 0.0, n, dsq=dsq)
 
@@ -257,7 +271,7 @@ def jobs(tier, seed):
     nf = 6 if tier == "quick" else 60
     fams = [("h_family", {"fam": seed * 1000 + f, "n": 5 if f % 2 == 0 else 4, "sym": [f % 4], "min_zero": f % 3 != 0}) for f in range(nf)]
     scen = [("h_scenario", {"kind": "head_cut_then_append"}), ("h_scenario", {"kind": "prefix_kept"}), ("h_scenario", {"kind": "both_sides"}),
-            ("h_scenario3d", {"kind": "tail_cut"}), ("h_scenario3d", {"kind": "both_sides_head_cut"})]
+            ("h_scenario3d", {"kind": "tail_cut"}), ("h_scenario3d", {"kind": "both_sides_head_cut"}), ("h_scenario3d", {"kind": "ring"})]
     if tier == "thorough":
         scen += [("h_scenario", {"kind": k, "order": list(o)}) for k in ("head_cut_then_append", "prefix_kept", "both_sides") for o in itertools.permutations(range(4)) if list(o) != [0, 1, 2, 3] and (k != "both_sides" or o[0] < o[1])]
     j = j[:2] + scen + fams + j[2:]
